@@ -45,11 +45,12 @@ def harnesses(tier):
                          ("c17_push_3_from_cap1", "3 pushes into Vector<u32>::with_capacity(1) (28-byte allocation)", "c17_f4_cap1"),
                          ("c17_from_iter_underestimate", "from_iter behind filter (size hint 0: header-only 24-byte allocation)", "c17_f4_from_iter_hint0")):
         hs.append(H(name, VEC, bounds=b, symbolic=["values"], enumerated=["operation sequence"], min_covers=1, timeout=1800, mem_gb=24, group=grp))
-    hs.append(H("c17_str_twin_must_fail", STR, bounds="vacuity twin", expect="fail", timeout=600, group="c17"))
+    if tier != "quick":
+        hs.append(H("c17_str_twin_must_fail", STR, bounds="vacuity twin", expect="fail", timeout=1800, mem_gb=24, group="c17"))
     # every String shorter than 7 bytes sits in a block smaller than VectorInner<u8> (known finding F4); longer strings
     # (7-8 bytes) ran out of memory (24 GB).  The short-string harnesses still assert the functional contract: any
     # additional failing assertion changes the finding key and is reported.
-    for n in ((0, 1) if tier == "quick" else (0, 1, 2)):
+    for n in (() if tier == "quick" else (0, 1)):
         hs.append(H("c17_string_%d" % n, STR, bounds="String::from(&str) of %d symbolic ASCII bytes: len, as_str round trip, NUL terminator through resolvo_string_bytes, clone, drops" % n,
                     symbolic=["bytes"], enumerated=["length %d" % n], min_covers=1, timeout=1800, mem_gb=24, group="c17_f4_short_string"))
     for n in (0, 3):
